@@ -396,7 +396,6 @@ class ClgnCifar10Mini(torch.nn.Sequential):
 
     def __init__(self, k_num=64, tau=10, **llkw):
         n_bits = 3
-        tau = 20
         layers = []
         layers.append(
             LogicConv2d(
